@@ -756,6 +756,30 @@ const retVal = 4242
 var selfCur = func() int { return -1 }
 
 // real generator; effects are logged into l
+// emit appends a generator-side effect. A single consumer call legitimately causes a handful of effects; a log
+// beyond stepLimit means a call kept running generator code (e.g. an accessor draining an infinite generator):
+// the call is cut by a panic, which the history runner records as the call's outcome (a logical bound, no clock)
+const stepLimit = 4000
+
+type stepLimitExceeded struct{}
+
+func (stepLimitExceeded) String() string { return "call still running generator code after 4000 effects" }
+
+// fxJoin prints an effect log (abbreviated when a runaway call made it huge)
+func fxJoin(l []string) string {
+	if len(l) > 60 {
+		return strings.Join(l[:30], ".") + fmt.Sprintf("...(%d effects)...", len(l)) + strings.Join(l[len(l)-5:], ".")
+	}
+	return strings.Join(l, ".")
+}
+
+func emit(l *[]string, s string) {
+	if len(*l) > stepLimit {
+		panic(stepLimitExceeded{})
+	}
+	*l = append(*l, s)
+}
+
 func (g gen) real(l *[]string) seq.Seq[int] {
 	if g.End == "retval-in-loop" {
 		inner := gen{Name: g.Name, Segs: g.Segs, End: "retval"}
@@ -774,7 +798,7 @@ func (g gen) real(l *[]string) seq.Seq[int] {
 		inner := gen{Name: g.Name, Segs: g.Segs, End: base}.real(l)
 		tail := func(tag string) seq.Seq[int] {
 			return seq.Delay(func() seq.Seq[int] {
-				*l = append(*l, tag)
+				emit(l, tag)
 				return seq.Bind(77, seq.Normal[int])
 			})
 		}
@@ -793,11 +817,11 @@ func (g gen) real(l *[]string) seq.Seq[int] {
 				}
 				return seq.Delay(func() seq.Seq[int] { return from(0, carry) })
 			case "return":
-				return seq.Delay(func() seq.Seq[int] { *l = append(*l, "end"); return seq.Return[int]() })
+				return seq.Delay(func() seq.Seq[int] { emit(l, "end"); return seq.Return[int]() })
 			case "retval":
-				return seq.Delay(func() seq.Seq[int] { *l = append(*l, "end"); return seq.ReturnValue(retVal) })
+				return seq.Delay(func() seq.Seq[int] { emit(l, "end"); return seq.ReturnValue(retVal) })
 			default:
-				return seq.Delay(func() seq.Seq[int] { *l = append(*l, "end"); return seq.Normal[int]() })
+				return seq.Delay(func() seq.Seq[int] { emit(l, "end"); return seq.Normal[int]() })
 			}
 		}
 		s := g.Segs[i]
@@ -805,29 +829,29 @@ func (g gen) real(l *[]string) seq.Seq[int] {
 			v := 10 + carry
 			if s.Echo {
 				return seq.BindRecv(v, func(r int) seq.Seq[int] {
-					*l = append(*l, fmt.Sprintf("recv%d=%d", i, r))
+					emit(l, fmt.Sprintf("recv%d=%d", i, r))
 					return from(i+1, r)
 				})
 			}
 			return seq.Bind(v, func() seq.Seq[int] {
-				*l = append(*l, fmt.Sprintf("resume%d", i))
+				emit(l, fmt.Sprintf("resume%d", i))
 				return from(i+1, 0)
 			})
 		}
 		return seq.Delay(func() seq.Seq[int] {
 			v := 10*(i+1) + carry
-			*l = append(*l, fmt.Sprintf("seg%d", i))
+			emit(l, fmt.Sprintf("seg%d", i))
 			if g.SelfRead {
-				*l = append(*l, fmt.Sprintf("cur=%d", selfCur()))
+				emit(l, fmt.Sprintf("cur=%d", selfCur()))
 			}
 			if s.Echo {
 				return seq.BindRecv(v, func(r int) seq.Seq[int] {
-					*l = append(*l, fmt.Sprintf("recv%d=%d", i, r))
+					emit(l, fmt.Sprintf("recv%d=%d", i, r))
 					return from(i+1, r)
 				})
 			}
 			return seq.Bind(v, func() seq.Seq[int] {
-				*l = append(*l, fmt.Sprintf("resume%d", i))
+				emit(l, fmt.Sprintf("resume%d", i))
 				return from(i+1, 0)
 			})
 		})
@@ -1018,7 +1042,7 @@ func runC09() {
 				gv = applyReal(it, op, m.state == 2)
 			}()
 			wantT = append(wantT, op+"→"+w+" fx="+strings.Join(m.l, "."))
-			gotT = append(gotT, op+"→"+gv+" fx="+strings.Join(rl, "."))
+			gotT = append(gotT, op+"→"+gv+" fx="+fxJoin(rl))
 			if wantT[i] != gotT[i] && bad < 0 {
 				bad = i
 			}
@@ -1057,7 +1081,7 @@ func runC09() {
 						}()
 						gv = applyReal(its[k], op, ms[k].state == 2)
 					}()
-					wfx, gfx := strings.Join(ms[k].l[mmark:], "."), strings.Join(sl[mark:], ".")
+					wfx, gfx := strings.Join(ms[k].l[mmark:], "."), fxJoin(sl[mark:])
 					if w != gv || wfx != gfx {
 						res.Violate("hist2:"+id, "c09-protocol-two-iterators-of-one-seq", fmt.Sprintf("generator %s, ONE Seq value started twice, history %v applied to both iterators alternately: call %d on iterator #%d\n model: %s fx=%s\n real:  %s fx=%s", g.Name, hist, i, k+1, w, wfx, gv, gfx),
 							map[string]any{"probe": "seqmodel", "mode": "c09", "only": id})
